@@ -140,6 +140,8 @@ func smtIntToGo(v string) string {
 	return v
 }
 
+var replaysRun int
+
 func writeReplay(vd, replaysDir, prop string, fr *FuncResult, o *Obligation, cfg CheckCfg, e *Engine) *ReplayFile {
 	dir := filepath.Join(replaysDir, prop)
 	os.MkdirAll(dir, 0o755)
@@ -172,7 +174,14 @@ func writeReplay(vd, replaysDir, prop string, fr *FuncResult, o *Obligation, cfg
 	rp.Driver = driver
 	rp.Outcome = "no replay driver for this obligation: violation reported from the failed proof obligation alone"
 	if driver != "" {
-		runDriver(vd, rp)
+		// replaying costs a build of the package under test: the first failing obligations of a check are replayed, the
+		// others are reported from the failed obligation alone (their replay file still names it and carries the solver output)
+		if replaysRun < 6 {
+			replaysRun++
+			runDriver(vd, rp)
+		} else {
+			rp.Outcome = "replay not run: 6 failing obligations of this check were replayed already; violation reported from the failed proof obligation alone"
+		}
 	}
 	d, _ := json.MarshalIndent(rp, "", " ")
 	os.WriteFile(rp.Path, d, 0o644)
